@@ -79,19 +79,19 @@ package keeper
 // ---- C02: ranked signal list never indexes past the configured maximum ----------------------------------
 // (end-block code: an index panic here would halt the chain)
 //@ func (k Keeper) GetSignalTotalPowersByPower
-//@ requires limit <= MaxInt64
+//@ replay zero-receiver:makeslice
 //@ ensures len(result) <= limit
 // every returned entry is the stored, non-zero total of a signal id found in the by-power index
 //@ ensures forall j :: 0 <= j && j < len(result) ==> result[j].Power != 0 && (exists q Bz :: has(Store_feeds, q) && hasprefix(q, types.SignalTotalPowerByPowerIndexKeyPrefix) && stpHas(Store_feeds, str(Store_feeds[q])) && result[j] == stpAt(Store_feeds, str(Store_feeds[q])))
-//@ loop 0: invariant 0 <= i && i <= limit && len(signalTotalPowers) == limit && cap(signalTotalPowers) >= limit
+//@ loop 0: invariant len(signalTotalPowers) <= limit && len(signalTotalPowers) <= itpos(iterator)
 //@ loop 0: invariant 0 <= itpos(iterator) && itpos(iterator) <= itlen(iterator)
-//@ loop 0: invariant forall j :: 0 <= j && j < i ==> signalTotalPowers[j].Power != 0 && (exists p :: 0 <= p && p < itpos(iterator) && stpHas(Store_feeds, str(itval(iterator, p))) && signalTotalPowers[j] == stpAt(Store_feeds, str(itval(iterator, p))))
+//@ loop 0: invariant forall j :: 0 <= j && j < len(signalTotalPowers) ==> signalTotalPowers[j].Power != 0 && (exists p :: 0 <= p && p < itpos(iterator) && stpHas(Store_feeds, str(itval(iterator, p))) && signalTotalPowers[j] == stpAt(Store_feeds, str(itval(iterator, p))))
 
 // C07: the current feeds are computed from the ranked signal totals: at most MaxCurrentFeeds of them, each an existing
 // non-zero total with exactly its stored power, with the interval given by the interval formula, and only those whose
 // power reaches the power step (interval > 0).
 //@ func (k Keeper) CalculateNewCurrentFeeds
-//@ requires wfTotals(Store_feeds) && feedsParams(Store_feeds).MaxCurrentFeeds <= MaxInt64
+//@ requires wfTotals(Store_feeds)
 //@ requires feedsParams(Store_feeds).PowerStepThreshold > 0 && feedsParams(Store_feeds).MinInterval > 0 && feedsParams(Store_feeds).MaxInterval > 0
 //@ ensures len(result) <= feedsParams(Store_feeds).MaxCurrentFeeds
 //@ ensures forall j :: 0 <= j && j < len(result) ==> result[j].Power != 0 && stpHas(Store_feeds, result[j].SignalID) && stp(Store_feeds, result[j].SignalID) == result[j].Power
@@ -206,3 +206,9 @@ package keeper
 //@ trusted
 //@ modifies Store_feeds
 //@ ensures forall q Bz :: !iskey(types.PriceStoreKey, q) ==> Store_feeds[q] == old(Store_feeds)[q]
+
+// ---- C02: the only writer of the parameter record stores validated parameters only --------------------------------
+//@ func (k Keeper) SetParams
+//@ modifies Store_feeds
+//@ ensures err == nil ==> Store_feeds == store(old(Store_feeds), types.ParamsKey, enc(p)) && p.CurrentFeedsUpdateInterval > 0 && p.PowerStepThreshold > 0 && p.MinInterval > 0 && p.MaxInterval > 0
+//@ ensures err != nil ==> Store_feeds == old(Store_feeds)
